@@ -8,7 +8,7 @@
      KAN : GrangerAnalyzer arrays vs the pairwise function results (_granger_causality + _dict2arr)
    Logarithms: the harness passes exp(f) and the model's log ARGUMENT is compared with it. *)
 From Coq Require Import QArith List Bool Arith PrimFloat.
-From NT Require Import F2Z Close QC Granger.
+From NT Require Import F2Z Close QC AR Granger.
 Import ListNotations.
 Open Scope Q_scope.
 
@@ -23,14 +23,19 @@ Definition m2fin (m : m2f) : bool := let '(a, b, c, d) := m in cfin a && cfin b 
 Definition q2fin (m : q2f) : bool := let '(a, b, c, d) := m in ffinite a && ffinite b && ffinite c && ffinite d.
 
 Definition cabs1 (z : C) : Q := Qabsb (re z) + Qabsb (im z).
+(* the first argument (the model's exact value) is put in lowest terms first (Qred q == q) *)
 Definition ccloseb (tol scale : Q) (a b : C) : bool :=
+  let a := cr a in
   Qle_bool (cabs1 (csub a b)) (tol * (cabs1 a + cabs1 b + scale)).
 Definition qcloseb (tol scale : Q) (a b : Q) : bool :=
+  let a := Qred a in
   Qle_bool (Qabsb (a - b)) (tol * (Qabsb a + Qabsb b + scale)).
+Definition m2r (A : M2) : M2 := mkM2 (cr (m00 A)) (cr (m01 A)) (cr (m10 A)) (cr (m11 A)).
 Definition m2abs1 (A : M2) : Q := cabs1 (m00 A) + cabs1 (m01 A) + cabs1 (m10 A) + cabs1 (m11 A).
 (* entries compared relative to the size of the whole matrix *)
 Definition m2closeb (tol : Q) (A B : M2) : bool :=
-  let sc := m2abs1 A in
+  let A := m2r A in
+  let sc := Qred (m2abs1 A) in
   ccloseb tol sc (m00 A) (m00 B) && ccloseb tol sc (m01 A) (m01 B) &&
   ccloseb tol sc (m10 A) (m10 B) && ccloseb tol sc (m11 A) (m11 B).
 
